@@ -119,7 +119,7 @@ func c01GuardShare(p *chk.Prog, r *chk.Report) {
 	var ok bool
 	why := "no `for _, ip := range ips` loop found"
 	for _, rs := range loops {
-		guard := g.GErrNil(true, "RECV.checkSharing(K, IP.String(), PORTS, SK)",
+		guard := g.GErrNil(true, checkSharingCallPat(p, "K", "PORTS", "SK"),
 			chk.H("K", isParam(f, "svcKey")), chk.H("IP", rangeVal(f, rs)), chk.H("PORTS", isParam(f, "ports")),
 			chk.H("SK", func(e ast.Expr) bool {
 				return definedBy(g, "&key{sharing: A, backend: B}", chk.H("A", isParam(f, "sharingKey")), chk.H("B", isParam(f, "backendKey")))(e) ||
@@ -165,11 +165,15 @@ func c01ShareBody(p *chk.Prog, r *chk.Report) {
 		return
 	}
 	g := f.Graph()
-	ip := isParam(f, "ip")
+	ip := c01IPKey(f, g)
 	existing := definedBy(g, "RECV.sharingKeyForIP[IP]", chk.H("IP", ip))
 	noKey := g.GPat(true, "E == nil", chk.H("E", existing))
-	// the compatibility test: the call of sharingOK, or its four comparisons spelt out at this place
-	shareOK := chk.GOr(g.GErrNil(true, "sharingOK(E, SK)", chk.H("E", existing), chk.H("SK", isParam(f, "sk"))),
+	// the compatibility test: the call of sharingOK (found by its role), or its four comparisons spelt out at this place
+	sharePat := "sharingOK(E, SK)"
+	if _, pat, _, _ := c01ShareFn(p, f, existing, isParam(f, "sk")); pat != "" {
+		sharePat = pat
+	}
+	shareOK := chk.GOr(g.GErrNil(true, sharePat, chk.H("E", existing), chk.H("SK", isParam(f, "sk"))),
 		chk.GAnd(c01SharingComparisons(g, existing, isParam(f, "sk"))...))
 	// otherSvcs: built by ranging over servicesOnIP[ip] and appending tenants != svc
 	var others types.Object
@@ -198,7 +202,21 @@ func c01ShareBody(p *chk.Prog, r *chk.Report) {
 	w := (&chk.Walk{G: g, Hit: nilRet, Cut: func(b *cfgBlock, k int) bool {
 		return g.EdgeImplies(b, k, chk.GAnyOf(noKey, shareOK, soleTenant))
 	}}).Run()
-	x.Check("checkSharing:nil-return-needs-sharingOK-or-sole-tenant", posOf(w, f), !w.Found, "",
+	ok1 := !w.Found
+	if !ok1 {
+		// the comparisons made on the way (the helper expanded in place, its results carried by a local error): decided
+		// path by path, one comparison at a time
+		ok1 = true
+		call := g.GErrNil(true, sharePat, chk.H("E", existing), chk.H("SK", isParam(f, "sk")))
+		for _, site := range g.Find(nilRet) {
+			for _, c := range c01SharingComparisons(g, existing, isParam(f, "sk")) {
+				if !g.Dominated(site, chk.GAnyOf(noKey, call, c, soleTenant)) {
+					ok1 = false
+				}
+			}
+		}
+	}
+	x.Check("checkSharing:nil-return-needs-sharingOK-or-sole-tenant", posOf(w, f), ok1, "",
 		"a nil return is reachable for an address with an existing sharing key although sharingOK failed and other services hold the address: "+describe(f, w))
 	// (2) key present => ports loop ran to exhaustion with the owner test
 	var portsOK bool
@@ -255,7 +273,7 @@ func bodyStart(g *chk.Graph, rs *ast.RangeStmt) chk.Site {
 // c01OthersLoopOK: in the loop that builds `others`, every iteration whose
 // tenant differs from svc appends the tenant.
 func c01OthersLoopOK(f *chk.Fn, g *chk.Graph, others types.Object) bool {
-	ip := isParam(f, "ip")
+	ip := c01IPKey(f, g)
 	for _, rs := range f.RangeLoops(func(e ast.Expr) bool { return f.MatchWith("RECV.servicesOnIP[IP]", e, chk.H("IP", ip)) != nil }) {
 		loop, body, _ := g.RangeBlocks(rs)
 		if body == nil {
@@ -301,6 +319,15 @@ func c01OthersLoopOK(f *chk.Fn, g *chk.Graph, others types.Object) bool {
 func c01ShareOK(p *chk.Prog, r *chk.Report) {
 	x := r.Rule("SHAREOK", "B path", "sharingOK returns nil only behind: existing key non-empty, new key non-empty, sharing keys equal, backend keys equal; k8salloc.BackendKey returns the pod selector exactly under ExternalTrafficPolicy == Local and \"\" otherwise", 6)
 	f := p.LookupFunc(allocPkg, "", "sharingOK")
+	var exOf, nwOf func(*chk.Fn) func(ast.Expr) bool
+	if cs := p.LookupFunc(allocPkg, "Allocator", "checkSharing"); cs != nil {
+		cg := cs.Graph()
+		existing := definedBy(cg, "RECV.sharingKeyForIP[IP]", chk.H("IP", c01IPKey(cs, cg)))
+		if fn, _, e, n := c01ShareFn(p, cs, existing, isParam(cs, "sk")); fn != nil {
+			// the helper found by its role (it may have been renamed or turned into a method of the key)
+			f, exOf, nwOf = fn, e, n
+		}
+	}
 	if f == nil {
 		// the helper was folded into its only user: the four comparisons are decided where they are made
 		c01SharingInlined(p, x)
@@ -308,6 +335,9 @@ func c01ShareOK(p *chk.Prog, r *chk.Report) {
 	if f != nil {
 		g := f.Graph()
 		ex, nw := isParamIdx(f, 0), isParamIdx(f, 1)
+		if exOf != nil {
+			ex, nw = exOf(f), nwOf(f)
+		}
 		cmp := c01SharingComparisons(g, ex, nw)
 		guards := []struct {
 			name string
@@ -614,7 +644,7 @@ func c01SharingInlined(p *chk.Prog, x *chk.R) {
 		return
 	}
 	g := f.Graph()
-	ip := isParam(f, "ip")
+	ip := c01IPKey(f, g)
 	existing := definedBy(g, "RECV.sharingKeyForIP[IP]", chk.H("IP", ip))
 	noKey := g.GPat(true, "E == nil", chk.H("E", existing))
 	soleTenant := chk.GNever()
@@ -637,6 +667,132 @@ func c01SharingInlined(p *chk.Prog, x *chk.R) {
 		w := (&chk.Walk{G: g, Hit: nilRet, Cut: func(b *cfgBlock, k int) bool {
 			return g.EdgeImplies(b, k, chk.GAnyOf(noKey, c, soleTenant))
 		}}).Run()
-		x.Check("sharingOK(folded into checkSharing):return-nil:"+names[i], posOf(w, f), !w.Found, "", "checkSharing can return nil for an address shared with other services without the comparison "+names[i]+": "+describe(f, w))
+		ok := !w.Found
+		if !ok {
+			ok = true
+			for _, site := range g.Find(nilRet) {
+				if !g.Dominated(site, chk.GAnyOf(noKey, c, soleTenant)) {
+					ok = false
+				}
+			}
+		}
+		x.Check("sharingOK(folded into checkSharing):return-nil:"+names[i], posOf(w, f), ok, "", "checkSharing can return nil for an address shared with other services without the comparison "+names[i]+": "+describe(f, w))
 	}
+}
+
+// c01IPKey: the textual form of the address under judgement inside checkSharing: the string parameter, or - when the
+// address arrives as a net.IP - a local defined once as ADDR.String() (or that call written in place).
+func c01IPKey(f *chk.Fn, g *chk.Graph) func(ast.Expr) bool {
+	v := f.ParamNamed("ip")
+	if v == nil {
+		v = f.Param(1)
+	}
+	if v == nil {
+		return func(ast.Expr) bool { return false }
+	}
+	if b, ok := v.Type().Underlying().(*types.Basic); ok && b.Kind() == types.String {
+		return func(e ast.Expr) bool { return f.Denotes(e, v) }
+	}
+	addr := func(e ast.Expr) bool { return f.Denotes(e, v) }
+	return definedBy(g, "A.String()", chk.H("A", addr))
+}
+
+// checkSharingCallPat: the shape of a call of checkSharing for the address matched by the hole IP (a net.IP at the
+// caller): its text form when checkSharing takes a string, the address itself when it takes a net.IP.
+func checkSharingCallPat(p *chk.Prog, svc, ports, sk string) string {
+	arg := "IP.String()"
+	if f := p.LookupFunc(allocPkg, "Allocator", "checkSharing"); f != nil {
+		if v := f.Param(1); v != nil {
+			if _, isStr := v.Type().Underlying().(*types.Basic); !isStr {
+				arg = "IP"
+			}
+		}
+	}
+	return "RECV.checkSharing(" + svc + ", " + arg + ", " + ports + ", " + sk + ")"
+}
+
+// c01ShareFn: the compatibility test of two sharing keys, found by its role: the module function with the single result
+// error that checkSharing calls with exactly the key recorded for the address and the requested key as operands (the
+// receiver counts as an operand). pat is the call as a pattern over the holes E (recorded key) and SK (requested key).
+func c01ShareFn(p *chk.Prog, f *chk.Fn, existing, sk func(ast.Expr) bool) (fn *chk.Fn, pat string, exPred, nwPred func(*chk.Fn) func(ast.Expr) bool) {
+	var found []*ast.CallExpr
+	chk.InspectNoLit(f.Body, func(n ast.Node) bool {
+		call, ok := n.(*ast.CallExpr)
+		if !ok {
+			return true
+		}
+		o, _ := f.Callee(call).(*types.Func)
+		if o == nil || p.FnOf(o) == nil {
+			return true
+		}
+		sig := o.Type().(*types.Signature)
+		if sig.Results().Len() != 1 || sig.Results().At(0).Type().String() != "error" {
+			return true
+		}
+		ops := append([]ast.Expr{}, call.Args...)
+		if sig.Recv() != nil {
+			sel, ok := ast.Unparen(call.Fun).(*ast.SelectorExpr)
+			if !ok {
+				return true
+			}
+			ops = append([]ast.Expr{sel.X}, ops...)
+		}
+		if len(ops) != 2 {
+			return true
+		}
+		if (existing(ops[0]) && sk(ops[1])) || (existing(ops[1]) && sk(ops[0])) {
+			found = append(found, call)
+		}
+		return true
+	})
+	if len(found) != 1 {
+		return nil, "", nil, nil
+	}
+	call := found[0]
+	o := f.Callee(call).(*types.Func)
+	fn = p.FnOf(o)
+	isMethod := o.Type().(*types.Signature).Recv() != nil
+	var first ast.Expr
+	if isMethod {
+		first = ast.Unparen(call.Fun).(*ast.SelectorExpr).X
+	} else {
+		first = call.Args[0]
+	}
+	exFirst := existing(first)
+	operand := func(i int) func(*chk.Fn) func(ast.Expr) bool {
+		return func(c *chk.Fn) func(ast.Expr) bool {
+			if isMethod {
+				if i == 0 {
+					return isRecv(c)
+				}
+				return isParamIdx(c, 0)
+			}
+			return isParamIdx(c, i)
+		}
+	}
+	a, b := "E", "SK"
+	if !exFirst {
+		a, b = "SK", "E"
+	}
+	if isMethod {
+		pat = a + "." + o.Name() + "(" + b + ")"
+	} else {
+		pat = o.Name() + "(" + a + ", " + b + ")"
+	}
+	if exFirst {
+		return fn, pat, operand(0), operand(1)
+	}
+	return fn, pat, operand(1), operand(0)
+}
+
+// c01ShareFnOnly: the key-compatibility helper of checkSharing found by its role, or nil.
+func c01ShareFnOnly(p *chk.Prog) *chk.Fn {
+	cs := p.LookupFunc(allocPkg, "Allocator", "checkSharing")
+	if cs == nil {
+		return nil
+	}
+	cg := cs.Graph()
+	existing := definedBy(cg, "RECV.sharingKeyForIP[IP]", chk.H("IP", c01IPKey(cs, cg)))
+	fn, _, _, _ := c01ShareFn(p, cs, existing, isParam(cs, "sk"))
+	return fn
 }
